@@ -104,6 +104,8 @@ type Shape struct {
 	Full    bool     `json:"full"` // all relative paths or the small subset
 	Files   []string `json:"files"`
 	Rel     []string `json:"rel"`      // the relative paths the names were built from
+	Group   string   `json:"group"`    // shapes of one group name the SAME files relative to their prefix: the same pattern must exclude the same files
+	Enc     bool     `json:"enc"`      // file:// URI with the relative path percent-encoded, as a client spells it
 	RegoRel []string `json:"rego_rel"` // data.regal.main._file_name_relative_to_root(file, prefix), observed
 }
 
@@ -120,10 +122,30 @@ func shapes(all, small []string) []*Shape {
 		}
 		return s
 	}
+	grp := func(s *Shape, g string) *Shape { s.Group = g; return s }
+	// names that are spelled differently as plain path, below an absolute directory and as file:// URI
+	sp := func(name, prefix, lead string, enc bool) *Shape {
+		s := &Shape{Name: name, Prefix: prefix, Lead: lead, Group: "special", Enc: enc}
+		for _, r := range specialRels() {
+			if enc {
+				s.Files = append(s.Files, lead+uriEscapePath(r))
+			} else {
+				s.Files = append(s.Files, lead+r)
+			}
+			s.Rel = append(s.Rel, r)
+		}
+		return s
+	}
 	return []*Shape{
-		mk("noprefix-relative", "", "", true),
-		mk("absdir", "/w", "/w/", true),
-		mk("uri", "file:///w", "file:///w/", true),
+		grp(mk("noprefix-relative", "", "", true), "full"),
+		grp(mk("absdir", "/w", "/w/", true), "full"),
+		grp(mk("uri", "file:///w", "file:///w/", true), "full"),
+		sp("special-relative", "", "", false),
+		sp("special-absdir", "/w x", "/w x/", false),
+		sp("special-absdir-odd", "/\u00e9/50%/a#b", "/\u00e9/50%/a#b/", false),
+		sp("special-absdir-slash", "/a+b/", "/a+b/", false),
+		sp("special-uri", "file:///w%20x", "file:///w%20x/", true),
+		sp("special-uri-slash", "file:///%C3%A9/50%25/", "file:///%C3%A9/50%25/", true),
 		mk("absdir-slash", "/w/", "/w/", false),
 		mk("noprefix-absolute", "", "/w/", false),
 		mk("rootdir", "/", "/", false),
@@ -131,6 +153,36 @@ func shapes(all, small []string) []*Shape {
 		mk("foreign-prefix", "/x", "/w/", false),
 		mk("uri-slash", "file:///w/", "file:///w/", false),
 	}
+}
+
+var specialDirs = []string{"a b", "\u00e9", "\u65e5", "a#b", "50%", "a+b", "a?b", "x%20y"}
+var specialFiles = []string{"a b.rego", "\u00e9.rego", "a#b.rego", "a+b.rego", "50%.rego", "\u65e5.rego", "b.rego"}
+
+// specialRels: relative paths over names with a space, %, #, ?, +, non-ASCII letters and a literal "%20"
+func specialRels() []string {
+	res := append([]string{}, specialFiles...)
+	for i, d := range specialDirs {
+		for k := 0; k < 3; k++ {
+			res = append(res, d+"/"+specialFiles[(i+2*k)%len(specialFiles)])
+		}
+	}
+	return append(res, "a b/\u00e9/\u65e5.rego", "a#b/a+b/50%.rego", "a/a b/b.rego", "50%/a?b/a b.rego", "x%20y/a b/\u00e9.rego")
+}
+
+// uriEscapePath: a relative path as a client writes it into a URI: RFC 3986 unreserved characters and the separators stay,
+// every other byte becomes %XY (this is also what regal's uri.FromPath produces)
+func uriEscapePath(r string) string {
+	var b strings.Builder
+	for i := 0; i < len(r); i++ {
+		c := r[i]
+		switch {
+		case c >= 'a' && c <= 'z', c >= 'A' && c <= 'Z', c >= '0' && c <= '9', c == '-', c == '_', c == '.', c == '~', c == '/':
+			b.WriteByte(c)
+		default:
+			fmt.Fprintf(&b, "%%%02X", c)
+		}
+	}
+	return b.String()
 }
 
 // closure: every string either expansion could conceivably hand to the glob engine for pattern p
@@ -553,7 +605,8 @@ func buildUniverse(o *opa, shs []*Shape, all []string) []string {
 	return cols
 }
 
-var oddAtoms = []string{"a", "b", ".rego", "*", "**", "?", "/", "[ab]", "[!a]", "{a,b}", "\\*", "é", "日", ".", "..", "-", " ", "a.rego", "**/", "/**"}
+var oddAtoms = []string{"a", "b", ".rego", "*", "**", "?", "/", "[ab]", "[!a]", "{a,b}", "\\*", "é", "日", ".", "..", "-", " ", "a.rego", "**/", "/**",
+	"#", "%", "+", "a b", "50%", "a#b", "a+b", "%20", "%23", "x%20y", "[ +#]", "%C3%A9"}
 var badAtoms = []string{"[", "[a-", "{a", "\\", "[]", "{", "[^"}
 
 func patternSet(rng *hutil.Rng, tier string, corpus []string) ([]string, map[string]string) {
@@ -599,6 +652,23 @@ func patternSet(rng *hutil.Rng, tier string, corpus []string) ([]string, map[str
 			add(p, "tokens4")
 		}
 	}
+	// patterns naming the special files: every component, directory forms, anchored and full paths (all of them: the
+	// set is small), and wild cards around the special characters
+	for _, r := range specialRels() {
+		parts := strings.Split(r, "/")
+		add(r, "special")
+		add(parts[len(parts)-1], "special")
+		if len(parts) > 1 {
+			add(parts[0], "special")
+			add(parts[0]+"/", "special")
+			add("/"+parts[0]+"/", "special")
+		}
+	}
+	for _, p := range []string{"a?b", "a?b.rego", "*#*", "* *", "* */", "/* */", "*%*", "50%/", "a%20b.rego", "a%20b", "x%2520y", "**/a+b/**",
+		"a[ +]b", "?.rego", "\u65e5*", "*[#?+]*", "%C3%A9", "%C3%A9/", "a%23b", "/a b.rego", "**/a b.rego", "a b/**/\u65e5.rego", "[\u00e9]",
+		"\u00e9/*.rego", "{a b,a#b}", "{a b,a#b}/", "*+*.rego"} {
+		add(p, "special")
+	}
 	nOdd, nBad := 150, 40
 	if tier == "thorough" {
 		nOdd, nBad = 1500, 200
@@ -632,7 +702,9 @@ func smallCases(out *hutil.Out, o *opa, rng *hutil.Rng, tier string, all []strin
 	for _, l := range levels {
 		pool = append(pool, l...)
 	}
+	names := all
 	pickList := func(max int, allowEmpty bool) []string {
+		all := names
 		n := rng.Below(max + 1)
 		l := []string{}
 		for i := 0; i < n; i++ {
@@ -652,11 +724,28 @@ func smallCases(out *hutil.Out, o *opa, rng *hutil.Rng, tier string, all []strin
 		{"", ""}, {"/w", "/w/"}, {"file:///w", "file:///w/"}, {"/w/", "/w/"}, {"", "/w/"}, {"/", "/"},
 		{"/w", ""}, {"/x", "/w/"}, {"w", "w/"}, {"file:///w/", "file:///w/"},
 	}
-	files := func(lead string) []string {
+	// names with a space, %, #, ?, +, non-ASCII letters; below a URI prefix they are percent-encoded as a client spells them
+	special := specialRels()
+	for _, r := range specialRels() {
+		parts := strings.Split(r, "/")
+		special = append(special, parts[0])
+	}
+	spPrefixes := []struct {
+		prefix, lead string
+		enc          bool
+	}{
+		{"", "", false}, {"/w x", "/w x/", false}, {"/\u00e9/50%", "/\u00e9/50%/", false}, {"/a#b/", "/a#b/", false}, {"", "/w x/", false},
+		{"file:///w%20x", "file:///w%20x/", true}, {"file:///%E6%97%A5/a%2Bb/", "file:///%E6%97%A5/a%2Bb/", true},
+	}
+	files := func(lead string, enc bool) []string {
 		n := 6 + rng.Below(10)
 		fs := []string{}
 		for i := 0; i < n; i++ {
-			fs = append(fs, lead+hutil.Choice(rng, all))
+			r := hutil.Choice(rng, names)
+			if enc {
+				r = uriEscapePath(r)
+			}
+			fs = append(fs, lead+r)
 		}
 		return fs
 	}
@@ -696,6 +785,13 @@ func smallCases(out *hutil.Out, o *opa, rng *hutil.Rng, tier string, all []strin
 	}
 	for i := 0; i < n; i++ {
 		pp := hutil.Choice(rng, prefixes)
+		enc := false
+		names = all
+		if rng.Below(3) == 0 {
+			sp := hutil.Choice(rng, spPrefixes)
+			pp.prefix, pp.lead, enc = sp.prefix, sp.lead, sp.enc
+			names = special
+		}
 		var cli, cfg, rule []string
 		cfgSet := rng.Below(5) != 0
 		if rng.Below(3) == 0 {
@@ -707,7 +803,7 @@ func smallCases(out *hutil.Out, o *opa, rng *hutil.Rng, tier string, all []strin
 		if rng.Below(2) == 0 {
 			rule = pickList(2, true)
 		}
-		fs := files(pp.lead)
+		fs := files(pp.lead, enc)
 		emit(func() SmallCase { return smallCase(o, "random", pp.prefix, fs, cli, cfg, cfgSet, rule) })
 	}
 	res := make([]SmallCase, len(jobs))
@@ -799,7 +895,9 @@ func setupLint(work string) lintEnv {
 	must(os.MkdirAll(rulesDir, 0o755))
 	must(os.WriteFile(filepath.Join(rulesDir, "every_file.rego"), []byte(customReportRule), 0o644))
 	must(os.WriteFile(filepath.Join(rulesDir, "every_file_agg.rego"), []byte(customAggRule), 0o644))
-	rel := []string{"a.rego", "b.rego", "a/a.rego", "a/b.rego", "b/a.rego", "a/b/b.rego", "b/a/a.rego", "a/a/b/b.rego"}
+	rel := []string{"a.rego", "b.rego", "a/a.rego", "a/b.rego", "b/a.rego", "a/b/b.rego", "b/a/a.rego", "a/a/b/b.rego",
+		// names that are spelled differently in a file:// URI
+		"a b/c d.rego", "\u00e9/\u65e5.rego", "a#b.rego", "50%/a+b.rego"}
 	for _, r := range rel {
 		p := filepath.Join(root, r)
 		must(os.MkdirAll(filepath.Dir(p), 0o755))
@@ -1066,7 +1164,8 @@ func lintCases(out *hutil.Out, o *opa, rng *hutil.Rng, tier string, work string)
 			case "paths-rel":
 				c.Files = append(c.Files, r)
 			case "modules-uri":
-				c.Files = append(c.Files, "file:///R/"+r)
+				// as a client (and regal's uri.FromPath) spells the file: the path percent-encoded
+				c.Files = append(c.Files, "file:///R/"+uriEscapePath(r))
 			}
 		}
 		cases = append(cases, c)
@@ -1091,6 +1190,12 @@ func lintCases(out *hutil.Out, o *opa, rng *hutil.Rng, tier string, work string)
 	mk("fixed:nothing", "paths-abs", "/R", all, nil, nil, false, nil)
 	mk("fixed:single-file", "paths-abs", "/R", []string{"a/b.rego"}, nil, nil, false, nil)
 	mk("fixed:two-files-one-ignored", "paths-abs", "/R", []string{"a/b.rego", "b.rego"}, nil, []string{"/b.rego"}, true, nil)
+	spIgn := map[string][]string{"builtin": {"a#b.rego", "50%/"}, "custom": {"a#b.rego", "50%/"}, "agg": {"a#b.rego", "50%/"}}
+	for _, mp := range [][2]string{{"paths-abs", "/R"}, {"paths-rel", "/R"}, {"modules-uri", "file:///R"}, {"modules-abs", "/R/"}} {
+		mk("fixed:special-global", mp[0], mp[1], all, nil, []string{"a b/", "\u65e5.rego", "*+*"}, true, nil)
+		mk("fixed:special-per-rule", mp[0], mp[1], all, nil, nil, false, spIgn)
+		mk("fixed:special-encoded-pattern", mp[0], mp[1], all, nil, []string{"a%20b/", "*%*"}, true, nil)
+	}
 
 	// through the CLI binary: working directory x spelling of the path argument
 	type cliShape struct{ cwd, arg string }
@@ -1251,16 +1356,22 @@ func replay(out *hutil.Out, o *opa, file, work string) {
 		out.Emit(c)
 	case "pat":
 		var c struct {
-			P     string `json:"p"`
-			Shape *Shape `json:"shape"`
+			P      string   `json:"p"`
+			Shape  *Shape   `json:"shape"`
+			Shapes []*Shape `json:"shapes"`
 		}
 		must(json.Unmarshal(r.Case, &c))
 		all := relPaths(4)
 		shs := shapes(all, relPaths(2))
 		if c.Shape != nil {
-			shs = []*Shape{c.Shape}
-			c.Shape.Full = false
-			c.Shape.RegoRel = nil
+			c.Shapes = append(c.Shapes, c.Shape)
+		}
+		if len(c.Shapes) > 0 {
+			shs = c.Shapes
+			for _, s := range shs {
+				s.Full = false
+				s.RegoRel = nil
+			}
 		}
 		universe := buildUniverse(o, shs, all)
 		out.Emit(map[string]any{"kind": "universe", "cols": universe})
